@@ -5,6 +5,8 @@
   tools/seeded.py verify <id> [--no-suite]
         in a fresh scratch git worktree of /repo (removed afterwards): demonstration passes on the
         clean tree, patch applies, demonstration fails with it, the pinned suite still passes
+  tools/seeded.py merge <snapshot of /verif>
+        take over the detection records written by a background pass (vp run) in its snapshot
   tools/seeded.py detect <id> [--tier quick] [--check C14]
         run the property's check from /verif against a scratch worktree with the patch applied
         (TEALER_SRC), evidence/replays redirected to a scratch directory; record the outcome
@@ -189,6 +191,29 @@ def cmd_detect(a):
         shutil.rmtree(scratch, ignore_errors=True)
 
 
+def cmd_merge(a):
+    """Copy the detection records (and kept replay files) that a `vp run` snapshot of /verif wrote
+    into its own seeded/<id>/meta.json over to /verif's."""
+    for mp in sorted(glob.glob(os.path.join(a.snapshot, "seeded", "*", "meta.json"))):
+        i = os.path.basename(os.path.dirname(mp))
+        if not os.path.exists(meta_path(i)):
+            continue
+        theirs = json.load(open(mp))
+        mine = load(i)
+        have = {json.dumps(r, sort_keys=True) for r in mine["ran"].get("detect", [])}
+        new = [r for r in theirs.get("ran", {}).get("detect", []) if json.dumps(r, sort_keys=True) not in have]
+        if new:
+            for r in new:
+                r["from_snapshot"] = True
+            mine["ran"].setdefault("detect", []).extend(new)
+            save(i, mine)
+            for f in glob.glob(os.path.join(os.path.dirname(mp), "replay-*.json")):
+                dst = os.path.join(V, "seeded", i, os.path.basename(f))
+                if not os.path.exists(dst):
+                    shutil.copy(f, dst)
+            print("merged", i, len(new), [r["detected"] for r in new])
+
+
 def main():
     ap = argparse.ArgumentParser()
     sub = ap.add_subparsers(dest="cmd", required=True)
@@ -198,8 +223,10 @@ def main():
     p.add_argument("id"); p.add_argument("--no-suite", action="store_true")
     p = sub.add_parser("detect")
     p.add_argument("id"); p.add_argument("--tier", default="quick"); p.add_argument("--check"); p.add_argument("--env", action="append")
+    p = sub.add_parser("merge")
+    p.add_argument("snapshot")
     a = ap.parse_args()
-    {"import": cmd_import, "verify": cmd_verify, "detect": cmd_detect}[a.cmd](a)
+    {"import": cmd_import, "verify": cmd_verify, "detect": cmd_detect, "merge": cmd_merge}[a.cmd](a)
 
 
 if __name__ == "__main__":
